@@ -232,10 +232,18 @@ class ExprMixin:
                     out.append((s2, opf(a if isinstance(a, Sym) else SInt(zint(a)), b)))
             return out
         if isinstance(op, ast.Pow):
-            if isinstance(a, int) and isinstance(b, int):
-                return [(st, a ** b)]
+            if not is_sym(a) and not is_sym(b):
+                try:
+                    return [(st, a ** b)]
+                except ZeroDivisionError:
+                    return [(st, Exc(ZeroDivisionError))]
             raise Unsupported("symbolic power", node)
         if isinstance(op, ast.Div):
+            if isinstance(a, SReal) and not is_sym(b):
+                r = a.__truediv__(b)
+                if r is NotImplemented:
+                    return [(st, Exc(ZeroDivisionError))] if b == 0 else self._unsup_div(node)
+                return [(st, r)]
             if not is_sym(a) and not is_sym(b):
                 try:
                     return [(st, a / b)]
@@ -256,6 +264,9 @@ class ExprMixin:
         if r is NotImplemented:
             raise Unsupported(f"binop on {a!r},{b!r}", node)
         return [(st, r)]
+
+    def _unsup_div(self, node):
+        raise Unsupported("true division by this operand", node)
 
     def ex_Compare(self, node, st):
         out = []
